@@ -81,6 +81,41 @@ pub struct RunResult {
 thread_local! {
     pub static LAST_PANIC: RefCell<Option<String>> = const { RefCell::new(None) };
     pub static LOG_LINES: RefCell<Vec<String>> = const { RefCell::new(Vec::new()) };
+    /// on a pool helper thread: the two cells above of the run's simulator thread
+    static REMOTE_PANIC: std::cell::Cell<*const RefCell<Option<String>>> = const { std::cell::Cell::new(std::ptr::null()) };
+    static REMOTE_LOG: std::cell::Cell<*const RefCell<Vec<String>>> = const { std::cell::Cell::new(std::ptr::null()) };
+}
+
+fn with_panic_cell<R>(f: impl FnOnce(&RefCell<Option<String>>) -> R) -> Option<R> {
+    let r = REMOTE_PANIC.try_with(|p| p.get()).ok()?;
+    if !r.is_null() {
+        return Some(f(unsafe { &*r }));
+    }
+    LAST_PANIC.try_with(|p| f(p)).ok()
+}
+
+fn with_log_cell<R>(f: impl FnOnce(&RefCell<Vec<String>>) -> R) -> Option<R> {
+    let r = REMOTE_LOG.try_with(|p| p.get()).ok()?;
+    if !r.is_null() {
+        return Some(f(unsafe { &*r }));
+    }
+    LOG_LINES.try_with(|p| f(p)).ok()
+}
+
+/// Pool closures run on helper threads (simkit::threads): they inherit the syscall state, the
+/// panic record and the log buffer of the thread that started them.
+pub fn install_context_hooks() {
+    fn capture() -> [usize; 4] {
+        let p = with_panic_cell(|c| c as *const _ as usize).unwrap_or(0);
+        let l = with_log_cell(|c| c as *const _ as usize).unwrap_or(0);
+        [crate::sys::context_capture(), p, l, 0]
+    }
+    fn install(c: [usize; 4]) {
+        crate::sys::context_install(c[0]);
+        let _ = REMOTE_PANIC.try_with(|p| p.set(c[1] as *const _));
+        let _ = REMOTE_LOG.try_with(|p| p.set(c[2] as *const _));
+    }
+    simkit::threads::set_context_hooks(capture, install);
 }
 
 pub fn install_panic_hook() {
@@ -110,7 +145,7 @@ pub fn install_panic_hook() {
         } else {
             "?".to_string()
         };
-        let _ = LAST_PANIC.try_with(|p| {
+        let _ = with_panic_cell(|p| {
             let mut p = p.borrow_mut();
             // keep the first panic of a command: later ones are consequences
             if p.is_none() {
@@ -132,7 +167,7 @@ impl log::Log for MemLogger {
     fn log(&self, record: &log::Record) {
         // format the arguments: the real logger does, and formatting can panic (F1)
         let line = format!("{}", record.args());
-        let _ = LOG_LINES.try_with(|l| l.borrow_mut().push(line));
+        let _ = with_log_cell(|l| l.borrow_mut().push(line));
     }
     fn flush(&self) {}
 }
@@ -165,8 +200,46 @@ fn clean_dir(dir: &std::path::Path) {
     }
 }
 
-/// Execute one run on a fresh thread.
+enum Msg {
+    Done(RunResult),
+    /// an inline pool closure is about to wait for another thread (simkit::threads)
+    NeedThreads,
+}
+
+thread_local! {
+    static NEED_TX: RefCell<Option<std::sync::mpsc::Sender<Msg>>> = const { RefCell::new(None) };
+}
+
+/// run threads abandoned because a closure blocked in inline mode (they stay parked)
+pub static ABANDONED_RUN_THREADS: std::sync::atomic::AtomicU64 = std::sync::atomic::AtomicU64::new(0);
+
+pub fn install_need_threads_hook() {
+    fn hook() {
+        let _ = NEED_TX.try_with(|t| {
+            if let Some(tx) = t.borrow().as_ref() {
+                let _ = tx.send(Msg::NeedThreads);
+            }
+        });
+    }
+    simkit::threads::set_need_threads_hook(hook);
+}
+
+/// Execute one run on a fresh thread. Pool closures are called in place; if one of them has to
+/// wait for another thread the same tape is run again with a helper thread per closure.
 pub fn run_one(prop: &str, f: PropFn, tier: Tier, sandbox: &std::path::Path, tape: Tape, record: bool, want_sample: bool) -> RunResult {
+    match run_one_mode(prop, f, tier, sandbox, tape.clone(), record, want_sample, false) {
+        Some(r) => r,
+        None => {
+            ABANDONED_RUN_THREADS.fetch_add(1, std::sync::atomic::Ordering::SeqCst);
+            let mut r = run_one_mode(prop, f, tier, sandbox, tape, record, want_sample, true).expect("threaded mode never asks for threads");
+            *r.counters.entry("sim:rerun-with-pool-threads".into()).or_insert(0) += 1;
+            r
+        }
+    }
+}
+
+#[allow(clippy::too_many_arguments)]
+fn run_one_mode(prop: &str, f: PropFn, tier: Tier, sandbox: &std::path::Path, tape: Tape, record: bool, want_sample: bool, threaded: bool) -> Option<RunResult> {
     clean_dir(sandbox);
     // the seed of the interposed getrandom is a function of the tape's first values
     let tape_seed = {
@@ -179,15 +252,18 @@ pub fn run_one(prop: &str, f: PropFn, tier: Tier, sandbox: &std::path::Path, tap
     let sys_state = Box::new(sys::SysState::new(&sandbox_s, tape_seed));
     let prop_s = prop.to_string();
     let sandbox_p = sandbox.to_path_buf();
-    let (tx, rx) = std::sync::mpsc::channel::<RunResult>();
+    let (tx, rx) = std::sync::mpsc::channel::<Msg>();
     let handle = std::thread::Builder::new()
         .name("run".into())
         .stack_size(16 << 20)
         .spawn(move || {
+            let tx2 = tx.clone();
             let result = (move || {
             // first thing on the thread: from here on getrandom() is the tape's
             sys::begin(sys_state);
+            NEED_TX.with(|t| *t.borrow_mut() = Some(tx2));
             let mut sim = Sim::new(tape);
+            sim.threaded = threaded;
             sim.record = record;
             if record && std::env::var("BITASIM_DRAWS").is_ok() {
                 sim.tape.log = Some(Vec::new());
@@ -239,14 +315,24 @@ pub fn run_one(prop: &str, f: PropFn, tier: Tier, sandbox: &std::path::Path, tap
                 harness_error,
             }
             })();
-            let _ = tx.send(result);
+            NEED_TX.with(|t| *t.borrow_mut() = None);
+            let _ = tx.send(Msg::Done(result));
         })
         .expect("spawn run thread");
-    // a run normally takes milliseconds. One that does not come back (a blocking closure that
-    // waits for the async side -- which the run-to-completion pool cannot simulate -- or a real
-    // deadlock) is abandoned: its thread stays parked, the batch goes on in fresh threads.
+    // a run normally takes milliseconds. One that does not come back (a deadlock the simulator
+    // cannot unwind from, an endless loop without a facade call) is abandoned: its thread stays
+    // behind, the batch goes on in fresh threads.
     let timeout = std::time::Duration::from_secs(RUN_TIMEOUT_SECS.load(std::sync::atomic::Ordering::Relaxed));
-    match rx.recv_timeout(timeout).map_err(|_| ()).and_then(|r| handle.join().map(|_| r).map_err(|_| ())) {
+    let msg = rx.recv_timeout(timeout);
+    if matches!(msg, Ok(Msg::NeedThreads)) {
+        // the thread sits in a futex wait inside a closure and stays there
+        drop(handle);
+        return None;
+    }
+    Some(match msg.map_err(|_| ()).and_then(|m| match m {
+        Msg::Done(r) => handle.join().map(|_| r).map_err(|_| ()),
+        Msg::NeedThreads => Err(()),
+    }) {
         Ok(r) => r,
         Err(_) => RunResult {
             verdict: Verdict::default(),
@@ -260,9 +346,9 @@ pub fn run_one(prop: &str, f: PropFn, tier: Tier, sandbox: &std::path::Path, tap
             counters: BTreeMap::new(),
             events: Vec::new(),
             notes: Vec::new(),
-            harness_error: Some("run did not finish within the per-run timeout (hung: a blocking task waiting for the async side cannot be simulated) or its thread died".into()),
+            harness_error: Some("run did not finish within the per-run timeout or its thread died".into()),
         },
-    }
+    })
 }
 
 pub fn trim_tape(mut t: Vec<u32>) -> Vec<u32> {
